@@ -68,7 +68,8 @@ def standard_cases():
     quoted = c02.quoted_cases(rng2, False)
     star = c02.star_cases(rng2, False)
     sql = c02.sql_cases(rng2, False)
-    for fam, n in ((quoted, 260), (star, 520), (sql, 300)):
+    operand = c02.operand_cases(rng2, False)
+    for fam, n in ((quoted, 260), (star, 520), (sql, 300), (operand, 320)):
         rng2.shuffle(fam)
         cases += fam[:n]
     return cases
